@@ -10,6 +10,8 @@ pub fn check(tier: Tier) -> Check {
         Part::new("C08/acks", json!({"depth": tier.pick(3, 4), "pids": [1, 2, 65535]}), 0, tier.pick(40, 600)),
         Part::new("C08/acks", json!({"depth": tier.pick(4, 5), "pids": if tier == Tier::Quick { vec![65535] } else { vec![1, 65535] }}), 0, tier.pick(40, 600)),
     ];
+    let mut parts = parts;
+    parts.push(Part::new("C08/acks", json!({"depth": 3, "pids": [1, 65535], "flavour": 1}), 0, tier.pick(40, 300)));
     Check {
         also_rel: false,
         property: "C08",
@@ -32,7 +34,7 @@ pub fn scenario(name: &str, params: &Value) -> Scenario {
         let mut sys = Sys::new("C08", &name, chz);
         sys.params = params.clone();
         sys.m.check_streams = false;
-        sys.bring_up(vec![]);
+        sys.bring_up_fl(vec![], params["flavour"].as_u64().unwrap_or(0));
         // sub 0: live stream; sub 1: stream dropped
         for (i, f) in ["s/live", "s/dropped"].iter().enumerate() {
             sys.apply(Ev::Start(OpSpec::Subscribe(SubscribeSpec::simple(f))));
